@@ -73,6 +73,7 @@ pub fn spaces(tier: &str) -> Vec<CSpace> {
         gen: Box::new(|ctx| crate::sem_enum::gen(ctx, &crate::sem_enum::EOpts { max_variants: 2, max_fields: 2, full_menu: true }).map(|c| FCase { item: c.item("S", None), tags: c.tags.clone() })),
         bound: b3(Some(4), Some(5), Some(6)),
     });
+    v.push(CSpace { name: "generic".into(), gen: Box::new(|ctx| crate::feat::gen_generic(ctx)), bound: None });
     v.push(CSpace { name: "feat-enum-prim".into(), gen: Box::new(|ctx| gen_enum_prim(ctx, &FOpts { max_members: 3, two_counterparts: false, force_two: false, full_menu: true, params: false })), bound: None });
     v
 }
